@@ -26,6 +26,7 @@
 static io_channel ch;
 static int blksize = 1024;
 static FILE *dataf, *readout;
+static char snapbase[2048], devpath[2048];
 static int werr_seen;
 
 static errcode_t werr_handler(io_channel channel, unsigned long block, int count, const void *data,
@@ -70,6 +71,10 @@ int main(int argc, char **argv)
 			if (!dataf) { perror("data"); return 3; }
 			continue;
 		}
+		if (!strcmp(op, "snap")) {
+			sscanf(line, "%*s %2047s", snapbase);
+			continue;
+		}
 		if (!strcmp(op, "readout")) {
 			char p[2048];
 			sscanf(line, "%*s %2047s", p);
@@ -94,6 +99,7 @@ int main(int argc, char **argv)
 				else if (!strcmp(opts[i], "werr"))
 					werr = 1;
 			}
+			strcpy(devpath, path);
 			ret = mgr->open(path, flags, &ch);
 			if (!ret) {
 				for (i = 0; i < 5; i++) {
@@ -129,6 +135,12 @@ int main(int argc, char **argv)
 			if (!ret)
 				blksize = (int)a;
 			printf("%d setbs ret=%ld\n", n, (long)ret);
+			if (ret) {
+				/* every later operation of the script was sized for the new block size: the history ends here */
+				printf("END setbs failed\n");
+				fflush(stdout);
+				return 0;
+			}
 		} else if (!strcmp(op, "r")) {
 			long bytes;
 			unsigned char *buf;
@@ -175,6 +187,27 @@ int main(int argc, char **argv)
 		} else if (!strcmp(op, "f")) {
 			ret = io_channel_flush(ch);
 			printf("%d f ret=%ld\n", n, (long)ret);
+			if (!ret && snapbase[0] && devpath[0]) {
+				/* what the device holds right after a successful flush, read through a descriptor of our own */
+				char sp[2200];
+				int dfd = open(devpath, O_RDONLY);
+				FILE *sf;
+				snprintf(sp, sizeof sp, "%s.%d", snapbase, n);
+				sf = fopen(sp, "wb");
+				if (dfd >= 0 && sf) {
+					static char cb[65536];
+					ssize_t got;
+					off_t pos = 0;
+					while ((got = pread(dfd, cb, sizeof cb, pos)) > 0) {
+						fwrite(cb, 1, got, sf);
+						pos += got;
+					}
+				}
+				if (sf)
+					fclose(sf);
+				if (dfd >= 0)
+					close(dfd);
+			}
 		} else if (!strcmp(op, "c")) {
 			ret = io_channel_close(ch);
 			ch = 0;
